@@ -1370,9 +1370,11 @@ fn with_usize(mut v: Value, name: &str, x: usize) -> Value {
 pub fn gen_c17(thorough: bool, seed: u64) -> Vec<Episode> {
     let mut eps = Vec::new();
     let mut r = rng(seed, 17);
-    let max_n = if thorough { 8 } else { 6 };
+    // the multi-block sizes 7 and 8 are in both tiers: the index arithmetic of the kernels differs there
+    // (strides 1 << (i - 6)), and a shift by 64 or more behaves differently with and without overflow checks
+    let max_n = 8;
     for n in 0..=max_n {
-        let bad_idx: Vec<usize> = if thorough {
+        let bad_idx: Vec<usize> = if thorough || n >= 5 {
             let mut v: Vec<usize> = (n..=n + 70).collect();
             v.extend([usize::MAX, usize::MAX - 1, 1usize << 32, 1usize << 63]);
             v
@@ -1819,6 +1821,46 @@ pub fn gen_canon(thorough: bool, seed: u64, c05: bool) -> Vec<Episode> {
                 let mut e = canon_episode(n, &f, &[kind], false, false);
                 if k % 8 >= 2 {
                     e.tys = "lut"; // the kernel is shared: most of these on one type only
+                }
+                eps.push(e);
+            }
+        }
+    }
+    // orbit invariance: f and a random variant of it must get the same representative (all sizes; the only
+    // exact-in-the-limit condition beyond enumeration)
+    if !c05 {
+        for n in 2..=8usize {
+            let tables = structured(n, &mut r);
+            let cnt = if thorough { if n == 8 { 150 } else { 100 } } else if n == 8 { 40 } else if n == 7 { 30 } else { 12 };
+            for k in 0..cnt {
+                let f = match k % 4 {
+                    0 => random_on(n, &mut r),
+                    1 => tables[r.gen_range(0..tables.len())].clone(),
+                    2 => {
+                        let g = random_on(n - 1, &mut r);
+                        let hi = k % 8 < 4;
+                        on_from_fn(n, |x| ((x >> (n - 1)) & 1 == 1) == hi && g.binary_search(&(x & (dom(n - 1) - 1))).is_ok())
+                    }
+                    _ => {
+                        let g = random_on(n - 1, &mut r);
+                        let c: u64 = r.gen();
+                        on_from_fn(n, |x| {
+                            let low = x & (dom(n - 1) - 1);
+                            if (x >> (n - 1)) & 1 == 1 { (c >> popcount(low)) & 1 == 1 } else { g.binary_search(&low).is_ok() }
+                        })
+                    }
+                };
+                let kind = ["npn", "npn", "p", "n"][k % 4 ^ (k / 4) % 4];
+                let mut perm: Vec<usize> = (0..n).collect();
+                if kind != "n" {
+                    for i in (1..n).rev() {
+                        perm.swap(i, r.gen_range(0..=i));
+                    }
+                }
+                let mask: Vec<usize> = if kind == "p" { vec![] } else { (0..=n).filter(|_| r.gen::<bool>()).collect() };
+                let mut e = Episode { n, tys: tys_for(n), ops: vec![load(0, n, &f), json!({"op": "canon_inv", "kind": kind, "a": 0, "tperm": perm, "tmask": mask})] };
+                if n == 8 && k % 8 >= 2 {
+                    e.tys = "lut";
                 }
                 eps.push(e);
             }
